@@ -1183,10 +1183,25 @@ def clip_flag_history_scenarios(rng, quick, formats):
 
 # ------------------------------------------------------------------------------------------
 
+def entry16(line, k):
+    """every third composite request whose arguments fit goes through pixman_image_composite, the 16-bit entry point"""
+    if k % 3 or not line.startswith("composite "):
+        return line
+    a = line.split()
+    v = [int(x) for x in a[2:10]]
+    if all(-32768 <= x <= 32767 for x in v[:6]) and all(0 <= x <= 65535 for x in v[6:]):
+        return "composite16 " + " ".join(a[1:])
+    return line
+
+
 def run_driver(exe, script_lines, wd, tag, chain):
     sp = os.path.join(wd, tag + ".ndjson.script")
     with open(sp, "w") as f:
+        k = 0
         for e in script_lines:
+            if exe.find("drv_frame") >= 0:
+                e = [entry16(ln, k + j) for j, ln in enumerate(e)]
+                k += len(e)
             f.write("\n".join(e) + "\n")
     tr = os.path.join(wd, tag + ".ndjson")
     # an abnormal end (signal, abort, timeout) leaves a Crash event in the trace and is judged by TLC;
